@@ -609,7 +609,7 @@ def api_trace(j: int, seed: int) -> T.Dict[str, T.Any]:
     def add_global(kind: str, s: str) -> None:
         n = 'c_g' + kind
         d = API_KINDS[kind]
-        df = rand_valid(d, random.Random(hash((seed, j, kind)) & 0xffff))
+        df = rand_valid(d, random.Random(seed * 131 + j * 17 + sum(ord(ch) for ch in kind)))
         o = {'d': d, 'def': df, 'yield': False}
         decls[(n, '~')] = d
         event('add_system', lambda: store.add_compiler_option('c', okey(n, s), make_option(mo, n, o)), k=K(n, s), d=d, **{'def': df})
